@@ -20,6 +20,7 @@ ASSUMPTIONS = ["residual tolerance 1e-9*scale for smooth systems and 20*fixed_po
                "rejection = any exception raised by assemble()",
                "an assemble() that raises because its fixed-point iteration for the contact forces did not converge returns nothing to judge: counted as undecided (the property speaks about returned values), never as held"]
 REQUIRED_MONITORS = ["EOM", "g_ddot", "signorini", "coulomb", "reject"]
+FORMAT_TWIN = True          # ambient monitor: every System matrix is also requested in the other documented formats (vlib/formattwin.py)
 META = {
     "level_text": "Exploration: post-conditions on the real System.assemble(): the returned initial accelerations and forces are substituted into the equations of motion, the acceleration-level constraints and the Signorini/Coulomb conditions recomputed from the real System methods; deliberately inconsistent initial states must be rejected. Held on the systems generated.",
     "level_note": "tolerances tied to SolverOptions.fixed_point_atol for contact systems; isotropic friction for direction tests.",
